@@ -132,6 +132,8 @@ func c02plan(tier string, seed int64) []run.Job {
 		jobs = append(jobs, run.Job{Family: "random", Seed: seed*100000 + 20000 + int64(i), N: per / 2, P: map[string]int{"strat": 1, "maxlen": 12, "inputs": 6}})
 		jobs = append(jobs, run.Job{Family: "layered", Seed: seed*100000 + 80000 + int64(i), N: per / 2, P: map[string]int{"inputs": 6}})
 		jobs = append(jobs, run.Job{Family: "mutual", Seed: seed*100000 + 50000 + int64(i), N: per / 2, P: map[string]int{"inputs": 6, "maxlen": 12}})
+		// hidden left recursion behind nullable prefixes of every result-list layout (zero-width alternative first / last / repeated)
+		jobs = append(jobs, run.Job{Family: "hidden", Seed: seed*100000 + 55000 + int64(i), N: per / 4, P: map[string]int{"inputs": 6, "maxlen": 9}})
 		// recursion reached through whitespace-trimming wrappers (LeftTrim/RightTrim in all four modes)
 		jobs = append(jobs, run.Job{Family: "random", Seed: seed*100000 + 70000 + int64(i), N: per / 2, P: map[string]int{"strat": 0, "maxlen": 10, "inputs": 6, "trims": 1, "memoexpr": 0}})
 	}
